@@ -184,6 +184,25 @@ def run(chk, facts, tier, only=None):
         stat = sorted({(x.get("res") or {}).get("path", "").rsplit("::", 1)[-1] for x in walk(he["body"]) if x.get("k") == "path"
                        and (x.get("res") or {}).get("kind") in ("Static", "Const")})
         chk.expect("ENV" in stat, "memo:env_clear-clears-ENV", f"env_clear must clear the ENV memo; touches {stat}")
+        # ... completely: a partial clear (retain / remove of some keys) leaves entries whose meaning depended on the ones removed
+        how = []
+        for x in walk(he["body"]):
+            if x.get("k") == "mcall" and x["m"] == "with" and any((y.get("res") or {}).get("path", "").endswith("::ENV") for y in walk(x["recv"]) if y.get("k") == "path"):
+                for y in walk(x["args"][0]):
+                    if y.get("k") == "mcall" and "btree::map::BTreeMap" in (y.get("callee") or ""):
+                        how.append(y["m"])
+                    if y.get("k") == "assign":
+                        how.append("assign")
+        chk.expect(how in (["clear"], ["assign"]), "memo:env_clear-clears-everything",
+                   f"env_clear must empty the ENV memo completely (a partial clear keeps entries such as `Knot(T)` whose target was "
+                   f"removed, so what a type derives to depends on earlier messages); operations on the map: {how}",
+                   ok_detail="ENV.clear()")
+
+    def r5():
+        import c03, c08, c09
+        chk.include(c09, "C09.R1", "C01.R5", facts)     # big-number and 128-bit codecs used by Nat/Int/i128/u128 values
+        chk.include(c03, "C03.R6", "C01.R6", facts)     # message layout
+        chk.include(c08, "C08.R3", "C01.R7", facts)     # tagged buffers between the decoder and the Nat/Int/Principal/Func/Service visitors
 
     for rid, desc, fn in (("C01.R1", "type table and value stream use one field order (derive + hand-written impls)", r1),
                           ("C01.R2", "decoding context re-established for every component; Drop clears the flags", r2),
@@ -192,6 +211,8 @@ def run(chk, facts, tier, only=None):
         if only and only != rid:
             continue
         chk.run_rule(rid, desc, fn)
+    if not only or only in ("C01.R5", "C01.R6", "C01.R7"):
+        r5()
 
 
 def pat_ctor_names(p):
